@@ -24,13 +24,13 @@ META = {
 }
 
 
-def _dense(mol):
+def _dense(mol, window=None):
     import torch
 
     from seqm.seqm_functions.rcis_batch import get_occ_virt, matrix_vector_product_batched
 
     with torch.no_grad():
-        nocc, nvirt, Cocc, Cvirt, ea_ei = get_occ_virt(mol, None, mol.e_mo)
+        nocc, nvirt, Cocc, Cvirt, ea_ei = get_occ_virt(mol, window, mol.e_mo)
         nov = nocc * nvirt
         I = torch.eye(nov).unsqueeze(0).expand(int(mol.nmol), nov, nov).contiguous()
         A, B = matrix_vector_product_batched(mol, I, mol.w.detach(), ea_ei, Cocc, Cvirt, makeB=True)
@@ -71,10 +71,26 @@ def _apb_from_fock(mol, nocc, nvirt, Cocc, Cvirt, ea_ei, m=0):
     return np.array(cols).T
 
 
-def _rpa_pair_checks(amp, m, n, Am, Bm, w, tol):
+def _to_window(X, nov, dims):
+    """amplitudes may be stored in the full occupied x virtual space although the active space is a window: cut the window out (and insist that
+    nothing lives outside it)"""
+    if X.shape[1] == nov or dims is None:
+        return X, 0.0
+    nocc_f, nvirt_f, n_below, m_above = dims
+    Xf = X.reshape(X.shape[0], nocc_f, nvirt_f)
+    inside = Xf[:, nocc_f - n_below:, :m_above]
+    outside = float(np.sqrt(max(0.0, (Xf ** 2).sum() - (inside ** 2).sum())))
+    return inside.reshape(X.shape[0], -1), outside
+
+
+def _rpa_pair_checks(amp, m, n, Am, Bm, w, tol, dims=None):
     """RPA eigenvectors (X, Y): A X + B Y = w X, B X + A Y = -w Y, X.X - Y.Y = 1 (state by state and between states)"""
     X = amp[0][m].detach().numpy()[:n].reshape(n, -1)
     Y = amp[1][m].detach().numpy()[:n].reshape(n, -1)
+    X, ox = _to_window(X, Am.shape[0], dims)
+    Y, oy = _to_window(Y, Am.shape[0], dims)
+    if max(ox, oy) > 1e-8:
+        return [f"amplitude weight {max(ox, oy):.2e} outside the requested orbital window"], {"window"}
     bad, kinds = [], set()
     r1 = np.linalg.norm(Am @ X.T + Bm @ Y.T - X.T * w[None, :], axis=0).max()
     r2 = np.linalg.norm(Bm @ X.T + Am @ Y.T + Y.T * w[None, :], axis=0).max()
@@ -92,7 +108,10 @@ def probe_eigenpairs(inp: Dict[str, Any]) -> Dict[str, Any]:
     names = inp["names"]
     method = inp.get("xmethod", "cis")
     tol = inp.get("tolerance", 1e-8)
-    sp = esh.settings(method=inp.get("method", "AM1"), eps=1e-11, converger=[1], excited={"n_states": inp["n_states"], "method": method, "tolerance": tol})
+    xd = {"n_states": inp["n_states"], "method": method, "tolerance": tol}
+    if inp.get("window"):
+        xd["orbital_window"] = list(inp["window"])     # active space: the top n occupied and the lowest m virtual orbitals
+    sp = esh.settings(method=inp.get("method", "AM1"), eps=1e-11, converger=[1], excited=xd)
     coords = None
     if inp.get("symmetric"):
         coords = [np.array(inp["symmetric"])]
@@ -106,9 +125,12 @@ def probe_eigenpairs(inp: Dict[str, Any]) -> Dict[str, Any]:
     mol = r["_mol"]
     bad: List[str] = []
     kinds = set()
-    A, B, nocc, nvirt, Cocc, Cvirt, ea_ei = _dense(mol)
+    A, B, nocc, nvirt, Cocc, Cvirt, ea_ei = _dense(mol, inp.get("window"))
     nov = nocc * nvirt
     E = r["cis_energies"]
+    wdims = None
+    if inp.get("window"):
+        wdims = (int(mol.nocc[0]), int(mol.norb[0]) - int(mol.nocc[0]), int(inp["window"][0]), int(inp["window"][1]))
     unstable: List[int] = []
     for m in range(len(names)):
         Am, Bm = A[m], B[m]
@@ -136,13 +158,16 @@ def probe_eigenpairs(inp: Dict[str, Any]) -> Dict[str, Any]:
         amp = mol.cis_amplitudes
         if method in ("cis", "tda"):
             X = amp[m].detach().numpy()[:n].reshape(n, -1)
+            X, ow = _to_window(X, Am.shape[0], wdims)
+            if ow > 1e-8:
+                bad.append(f"mol{m}: amplitude weight {ow:.2e} outside the requested orbital window"); kinds.add("window")
             if np.abs(X @ X.T - np.eye(n)).max() > max(1e-6, 100 * tol):
                 bad.append(f"mol{m}: amplitudes not orthonormal ({np.abs(X @ X.T - np.eye(n)).max():.2e})"); kinds.add("orthonormal")
             res = np.linalg.norm(Am @ X.T - X.T * E[m][:n][None, :], axis=0).max()
             if res > max(50 * tol, 1e-6):
                 bad.append(f"mol{m}: residual {res:.2e} above the tolerance {tol}"); kinds.add("residual")
         if method == "rpa" and amp is not None and amp.dim() == 4:
-            bad_r, kinds_r = _rpa_pair_checks(amp, m, n, Am, Bm, E[m][:n], tol)
+            bad_r, kinds_r = _rpa_pair_checks(amp, m, n, Am, Bm, E[m][:n], tol, dims=wdims)
             bad += [f"mol{m}: " + b for b in bad_r]
             kinds |= kinds_r
         if inp.get("check_apb", True) and m == 0:
@@ -157,7 +182,7 @@ def probe_eigenpairs(inp: Dict[str, Any]) -> Dict[str, Any]:
         if (r2["cis_energies"][:, : inp["n_states"]] > E[:, : inp["n_states"]] + max(1e-7, 20 * tol)).any():
             bad.append("an RPA energy exceeds the corresponding CIS energy"); kinds.add("rpa_le_cis")
     return {"ok": not bad, "observed": bad[:6], "expected": "lowest eigenpairs of the dense response matrices", "predicate": "",
-            "fields": {"kinds": sorted(kinds), "xmethod": method, "method": inp.get("method", "AM1"), "molecule": "+".join(names), "n_states": inp["n_states"]}}
+            "fields": {"kinds": sorted(kinds), "xmethod": method, "method": inp.get("method", "AM1"), "molecule": "+".join(names), "n_states": inp["n_states"], "window": bool(inp.get("window"))}}
 
 
 def probe_guess_independence(inp: Dict[str, Any]) -> Dict[str, Any]:
@@ -342,6 +367,10 @@ def gen_cases(ctx: Ctx):
         cases.append(("eigenpairs", {"names": [nm] * k, "n_states": 3, "xmethod": "cis", "method": ["AM1", "PM3"][i % 2], "distort": d[::-1], "seed": int(rng.integers(0, 10**6)), "check_apb": False}))
     for i, (nm, ns) in enumerate([("ch2o", 2), ("hcn", 3), ("h2o", 2), ("ch2o", 4), ("co", 3), ("hcn", 2)][: (6 if ctx.thorough else 3)]):
         cases.append(("staggered_batch", {"name": nm, "n_states": ns, "xmethod": ["rpa", "cis"][(i + ctx.seed) % 2] if i else "rpa", "method": ["AM1", "PM3", "MNDO"][i % 3], "seed": int(rng.integers(0, 10**6)), "layout": (i + ctx.seed) % 2}))
+    # orbital windows (restricted active space): the reference is the dense matrix in the SAME window
+    for i, (nm, win, ns) in enumerate([("ch2o", [3, 2], 3), ("c2h4", [4, 3], 4), ("h2o", [2, 2], 2), ("hcn", [5, 1], 2)][: (4 if ctx.thorough else 2)]):
+        cases.append(("eigenpairs", {"names": [nm] * (1 + i % 2), "n_states": ns, "xmethod": ["cis", "rpa"][(i + ctx.seed) % 2], "method": ["AM1", "PM3"][i % 2], "window": win, "check_apb": False,
+                                     "distort": [0.0, 0.05][: 1 + i % 2], "seed": int(rng.integers(0, 10**6))}))
     # the same object re-evaluated along a sequence of nearby geometries
     for i, nm in enumerate(["ch2o", "ch4", "h2o", "nh3"][: (4 if ctx.thorough else 2)]):
         for xm in ("cis", "rpa"):
